@@ -131,8 +131,8 @@ Proof.
   unfold parse.
   assert (Hhd : exists rest, glob_to_regex_old p = c_caret :: rest) by (eexists; reflexivity).
   destruct Hhd as (rest & E). rewrite E in *.
-  destruct rest as [|b [|c [|d rest']]]; try (rewrite Ha; reflexivity).
-  change (c_caret =? c_lparen) with false. cbn [andb]. rewrite Ha. reflexivity.
+  destruct rest as [|b [|c [|d rest']]];
+    try change (c_caret =? c_lparen) with false; cbn [andb]; rewrite Ha; reflexivity.
 Qed.
 
 (* ================================================================================ *)
